@@ -16,10 +16,21 @@ use liwe::graph::{Graph, GraphContext, GraphPatch};
 use liwe::model::tree::TreeIter;
 use liwe::model::Key;
 
+fn one() -> i32 {
+    1
+}
+
 #[derive(Clone, Debug, Serialize, Deserialize, PartialEq)]
 #[serde(tag = "op")]
 pub enum Op {
-    Change { key: String, text: String, class: String },
+    Change {
+        key: String,
+        text: String,
+        class: String,
+        /// document version the editor sends with the change (restarts after close/reopen)
+        #[serde(default = "one")]
+        version: i32,
+    },
     Save { key: String, text: Option<String>, class: String },
     Restart,
     /// format-on-save: the editor applies the server's own formatting answer and sends it back
@@ -123,6 +134,7 @@ pub fn generate(seed: u64, tier: Tier) -> History {
         docs.insert(k.clone(), d);
     }
     let mut ops = vec![];
+    let mut versions: BTreeMap<String, i32> = BTreeMap::new();
     let mut probes: BTreeSet<String> = probes_init.into_iter().collect();
     let mut version = 0;
     for _ in 0..n_ops {
@@ -138,7 +150,7 @@ pub fn generate(seed: u64, tier: Tier) -> History {
             let good = gen::render(&key, &docs[&key]);
             let shape = *work.pick(&["- ```\n  code\n  ```\n", "- > quoted\n\n  more text\n", "- > # heading in quote\n\n  more text\n\n- [x](1)\n", "1. ```rust\n   let a = 1;\n   ```\n\n   tail\n"]);
             let bad = format!("{}\n\n{}", good.trim_end(), shape);
-            ops.push(Op::Change { key: key.clone(), text: bad, class: "c03-shape".into() });
+            ops.push(Op::Change { key: key.clone(), text: bad, class: "c03-shape".into(), version: next_version(&mut versions, &key, &mut work) });
             if work.chance(1, 3) && ks.len() > 1 {
                 // the server keeps serving other notes while one is torn
                 let other = work.pick(&ks).clone();
@@ -149,10 +161,10 @@ pub fn generate(seed: u64, tier: Tier) -> History {
                     let m = *g.rng.pick(&enabled);
                     let name = gen::mutate(&mut g, docs.get_mut(&other).unwrap(), m, &vtok);
                     let t = gen::render(&other, &docs[&other]);
-                    ops.push(Op::Change { key: other, text: t, class: format!("while-torn:{}", name) });
+                    { let version = next_version(&mut versions, &other, &mut work); ops.push(Op::Change { key: other, text: t, class: format!("while-torn:{}", name), version }); }
                 }
             }
-            ops.push(Op::Change { key, text: good, class: "repair-after-c03-shape".into() });
+            { let version = next_version(&mut versions, &key, &mut work); ops.push(Op::Change { key, text: good, class: "repair-after-c03-shape".into(), version }); }
             probes.insert("aborted-update-and-repair".into());
             continue;
         }
@@ -238,12 +250,13 @@ pub fn generate(seed: u64, tier: Tier) -> History {
                 ops.push(Op::Save { key: key.clone(), text: None, class });
                 // revert model doc to the last sent text is not possible structurally; instead send
                 // the text in a following change so that model and docs stay in step
-                ops.push(Op::Change { key, text, class: "after_textless_save".into() });
+                ops.push(Op::Change { key: key.clone(), text, class: "after_textless_save".into(), version: next_version(&mut versions, &key, &mut work) });
             } else {
                 ops.push(Op::Save { key, text: Some(text), class });
             }
         } else {
-            ops.push(Op::Change { key, text, class });
+            let version = next_version(&mut versions, &key, &mut work);
+            ops.push(Op::Change { key, text, class, version });
         }
     }
     let mut queries = vec![String::new()];
@@ -252,6 +265,16 @@ pub fn generate(seed: u64, tier: Tier) -> History {
     }
     queries.push(format!("v{}", work.range(1, version.max(1))));
     History { refs_ext, library, ops, queries, pick_seed: rng::mix2(seed, 77), probes: probes.into_iter().collect() }
+}
+
+/// version numbers mostly increase; now and then the editor closes and reopens the note and starts again at 1
+fn next_version(versions: &mut BTreeMap<String, i32>, key: &str, rng: &mut Rng) -> i32 {
+    let v = versions.entry(key.to_string()).or_insert(0);
+    if *v >= 2 && rng.chance(1, 6) {
+        *v = 0;
+    }
+    *v += 1;
+    *v
 }
 
 fn op_kind(model: &BTreeMap<String, String>, op: &Op) -> &'static str {
@@ -424,11 +447,12 @@ pub fn run(h: &History, with_patches: bool) -> Outcome {
                 }
                 Op::Change { key, text, .. } | Op::Save { key, text: Some(text), .. } => {
                     let is_save = matches!(op, Op::Save { .. });
+                    let version = if let Op::Change { version, .. } = op { *version } else { 1 };
                     let r = guarded(|| {
                         if is_save {
                             canon::did_save(&mut inc, key, Some(text))
                         } else {
-                            canon::did_change(&mut inc, key, text)
+                            canon::did_change_v(&mut inc, key, text, version)
                         }
                     });
                     model.insert(key.clone(), text.clone());
